@@ -22,6 +22,7 @@ import (
 type NewStoreCase struct {
 	Names     []string       `json:"names"`      // declared, duplicates allowed
 	UseStruct bool           `json:"use_struct"` // additionally declare "s1","s2" through a tagged struct
+	TwoStructs bool          `json:"two_structs"` // ... and through a second struct whose tags repeat those names (and each other)
 	Fails     map[string]int `json:"fails"`      // per name: n>=0 transient failures before success; -1 hang until ctx; -2 permanent error
 	FailKind  string         `json:"fail_kind"`  // what a transient/permanent failure looks like: err | denied | notfound
 	Cache     string         `json:"cache"`      // none | valid | invalid (syntax) | typeerr (well-formed JSON, wrong type somewhere) | readerr
@@ -31,6 +32,7 @@ type NewStoreCase struct {
 	CtxMs     int            `json:"ctx_ms"`
 	Client    string         `json:"client"` // svc | file
 	FileHas   []string       `json:"file_has"`
+	PlainCtx  bool           `json:"plain_ctx"` // the client reports abandoned requests with an error that does not wrap the context's error
 	Misconfig string         `json:"misconfig"` // "" | nilclient | nonames | emptyname (last) | emptyfirst | emptymid
 	ExpiryS   int            `json:"expiry_s"`  // StoreConfig.ExpiryAge in seconds (0 = none)
 	StampAgo  int            `json:"stamp_ago"` // cached entries were last accessed this many seconds ago (-1 = stamp 0)
@@ -43,21 +45,35 @@ type tagged struct {
 	S2 string `setec:"s2"`
 }
 
+// a second struct naming secrets that are named already: twice within itself and once more across structs
+type taggedAgain struct {
+	A []byte `setec:"s2"`
+	B string `setec:"s2"`
+	C string `setec:"s1"`
+	// names that occur only in this struct, twice, and sort before the ones collected so far
+	D []byte `setec:"b2"`
+	E string `setec:"b2"`
+	F string `setec:"0first"`
+	G []byte `setec:"0first"`
+}
+
 func genNewStoreCase(rt *rapid.T) NewStoreCase {
 	c := NewStoreCase{Fails: map[string]int{}}
 	c.Names = rapid.SliceOfN(rapid.SampledFrom(c10Pool), 1, 6).Draw(rt, "names")
 	c.UseStruct = rapid.IntRange(0, 3).Draw(rt, "struct") == 0
-	for _, n := range append(append([]string{}, c10Pool...), "s1", "s2") {
+	c.TwoStructs = c.UseStruct && rapid.Bool().Draw(rt, "twostructs")
+	for _, n := range append(append([]string{}, c10Pool...), "s1", "s2", "b2", "0first") {
 		c.Fails[n] = rapid.SampledFrom([]int{0, 0, 0, 1, 2, 5, 13, 16, -1, -2}).Draw(rt, "fails-"+n)
 	}
-	c.Cache = rapid.SampledFrom([]string{"none", "valid", "valid", "valid", "invalid", "typeerr", "typeerr", "readerr"}).Draw(rt, "cache")
+	c.Cache = rapid.SampledFrom([]string{"none", "valid", "valid", "valid", "invalid", "typeerr", "typeerr", "nullsib", "readerr"}).Draw(rt, "cache")
 	c.FailKind = rapid.SampledFrom([]string{"err", "err", "denied", "notfound"}).Draw(rt, "failkind")
-	c.Cached = rapid.SliceOfNDistinct(rapid.SampledFrom(append(append([]string{}, c10Pool...), "s1", "s2", "zz")), 0, 7, func(s string) string { return s }).Draw(rt, "cached")
+	c.PlainCtx = rapid.IntRange(0, 2).Draw(rt, "plainctx") == 0
+	c.Cached = rapid.SliceOfNDistinct(rapid.SampledFrom(append(append([]string{}, c10Pool...), "s1", "s2", "zz", "b2", "0first")), 0, 9, func(s string) string { return s }).Draw(rt, "cached")
 	c.Stale = rapid.Bool().Draw(rt, "stale")
 	c.Ctx = rapid.SampledFrom([]string{"bg", "bg", "deadline", "deadline", "cancel", "cancelled"}).Draw(rt, "ctx")
 	c.CtxMs = rapid.SampledFrom([]int{3, 250, 4000, 10007, 60011}).Draw(rt, "ctxms")
 	c.Client = rapid.SampledFrom([]string{"svc", "svc", "svc", "file"}).Draw(rt, "client")
-	c.FileHas = rapid.SliceOfNDistinct(rapid.SampledFrom(append(append([]string{}, c10Pool...), "s1", "s2")), 0, 6, func(s string) string { return s }).Draw(rt, "filehas")
+	c.FileHas = rapid.SliceOfNDistinct(rapid.SampledFrom(append(append([]string{}, c10Pool...), "s1", "s2", "b2", "0first")), 0, 8, func(s string) string { return s }).Draw(rt, "filehas")
 	c.Misconfig = rapid.SampledFrom([]string{"", "", "", "", "", "", "nilclient", "nonames", "emptyname", "emptyfirst", "emptymid"}).Draw(rt, "misconfig")
 	c.ExpiryS = rapid.SampledFrom([]int{0, 0, 10, 3600}).Draw(rt, "expiry")
 	c.StampAgo = rapid.SampledFrom([]int{-1, 0, 5, 11, 100000}).Draw(rt, "stampago")
@@ -82,7 +98,8 @@ func runC10(t *testing.T, c NewStoreCase) (v *h.Violation, info h.Info) {
 
 func runC10Bubble(dir string, c NewStoreCase, info *h.Info) *h.Violation {
 	svc := fake.NewSvc()
-	all := append(append([]string{}, c10Pool...), "s1", "s2", "zz")
+	svc.PlainCtxErrors = c.PlainCtx
+	all := append(append([]string{}, c10Pool...), "s1", "s2", "zz", "b2", "0first")
 	fk := c.FailKind
 	if fk == "" {
 		fk = "err"
@@ -122,6 +139,15 @@ func runC10Bubble(dir string, c NewStoreCase, info *h.Info) *h.Violation {
 		switch c.Cache {
 		case "invalid":
 			data = append(data[:len(data)-1], []byte(`,"broken":null}`)...)
+		case "nullsib":
+			// a JSON null where an entry should be, under a name nobody declared: not a document of the
+			// documented shape, so none of it is a valid cache
+			if len(doc) == 0 {
+				data = []byte(`{"ghost":null}`)
+			} else {
+				data = append(data[:len(data)-1], []byte(`,"ghost":null}`)...)
+			}
+			info.Class("cache-with-a-null-entry")
 		case "typeerr":
 			// well-formed JSON, but one sibling entry (or one field of one entry) has the wrong JSON type:
 			// the document as a whole does not decode, so none of it is a valid cache
@@ -155,12 +181,18 @@ func runC10Bubble(dir string, c NewStoreCase, info *h.Info) *h.Violation {
 		cfg.Cache = cache
 	}
 	var tg tagged
+	var tg2 taggedAgain
 	declared := map[string]bool{}
 	for _, n := range c.Names {
 		declared[n] = true
 	}
 	if c.UseStruct {
 		cfg.Structs = []setec.Struct{{Value: &tg}}
+		if c.TwoStructs {
+			cfg.Structs = append(cfg.Structs, setec.Struct{Value: &tg2})
+			info.Class("struct-tags-repeat-names")
+			declared["b2"], declared["0first"] = true, true
+		}
 		declared["s1"], declared["s2"] = true, true
 		info.Class("struct-declared")
 	}
@@ -388,6 +420,21 @@ func runC10Bubble(dir string, c NewStoreCase, info *h.Info) *h.Violation {
 			}
 			if string(tg.S1) != w1 || tg.S2 != w2 {
 				return h.V("value-for-every-declared-secret", "struct fields hold %q,%q want %q,%q", tg.S1, tg.S2, w1, w2)
+			}
+			if c.TwoStructs && (string(tg2.A) != w2 || tg2.B != w2 || tg2.C != w1) {
+				return h.V("value-for-every-declared-secret", "fields of the second struct hold %q,%q,%q want %q,%q,%q", tg2.A, tg2.B, tg2.C, w2, w2, w1)
+			}
+			if c.TwoStructs {
+				wb, wf := "svc-b2", "svc-0first"
+				if inCache("b2") {
+					wb = "cache-b2"
+				}
+				if inCache("0first") {
+					wf = "cache-0first"
+				}
+				if string(tg2.D) != wb || tg2.E != wb || tg2.F != wf || string(tg2.G) != wf {
+					return h.V("value-for-every-declared-secret", "fields of the second struct hold %q,%q,%q,%q want %q,%q,%q,%q", tg2.D, tg2.E, tg2.F, tg2.G, wb, wb, wf, wf)
+				}
 			}
 		}
 		if o.at > bound {
